@@ -2,6 +2,25 @@ From V Require Export lib.Verdict gen.Tables C01.Model C01.Spec.
 
 Record obs := { o_cds_keys : list key; o_cds : bool; o_eds : bool; o_lds : bool; o_rds : bool; o_nds : bool; o_partial : bool }.
 
+(* (H) validation against the REAL generators on a live fake discovery server with long-lived connected clients.
+   XO = what was observed for ONE xDS type of ONE proxy after ONE push:
+     decided  = the real x-NeedsPush verdict on the real (proxy-filtered) push request (false if the proxy filter dropped it)
+     sent     = a response of type x was observed on the stream
+     equal    = x's resources from a forced push before and after the change are byte-identical
+     narrow   = every resource of x that was NOT resent in this push is byte-identical before and after (resource granularity:
+                partial EDS pushes resend only some ClusterLoadAssignments)
+     held     = what the long-lived client holds for x equals what a forced push generates now, per resource name
+     ctx      = x generated (no cache) from the live, partially updated PushContext equals x from a from-scratch PushContext
+     heldfull = what the client holds equals the latter *)
+(* short constructors for harness-printed terms (plain applications elaborate much faster than record notation) *)
+Definition ky (k : kind) (ns nm : N) : key := {| kk := k; kns := ns; kname := nm |}.
+Definition ev (ks : list key) (r : reason) : event := {| ev_keys := ks; ev_reason := r |}.
+Definition px (t : node_type) (ns : N) (gw : bool) : proxy := {| ptype := t; cfg_ns := ns; is_ew := false; gw_changed := gw |}.
+Definition pxe (t : node_type) (ns : N) (ew gw : bool) : proxy := {| ptype := t; cfg_ns := ns; is_ew := ew; gw_changed := gw |}.
+
+Inductive xo := XO (x : xds) (decided sent equal narrow held ctx heldfull : bool).
+Inductive cv := CV (x : xds) (equal new_equal : bool).
+
 Inductive case :=
 (* a batch of events merged by the REAL PushRequest.Merge, then the five real decision functions *)
 | NeedsPush (id : N) (scoped jwks : bool) (root : N) (is_forced wp : bool) (evs : list event) (p : proxy) (o : obs)
@@ -9,29 +28,18 @@ Inductive case :=
 | Table (id : N) (scoped jwks : bool) (name : string) (nt : option node_type) (observed : list kind)
 (* DefaultProxyNeedsPush *)
 | ProxyNeeds (id : N) (scoped jwks : bool) (root : N) (r : req) (p : proxy) (d : pdeps) (okeys : list key) (o : bool)
-(* (H) validation against the REAL generators on a live fake discovery server with a connected client: ONE config
-   change of kind k; evs = the push request(s) the real controllers emitted for it, already filtered by the real
-   DefaultProxyNeedsPush for this proxy (pneeds = its verdict); decided = the real x-NeedsPush verdict (false if
-   the proxy filter dropped the push); sent = a response of type x was observed on the stream; equal = x's
-   resources generated by a forced push before and after the change are byte-identical; held_ok = what the
-   long-lived client holds for x after the push equals what a forced push generates now. *)
-| HDep (id : N) (scoped jwks : bool) (root : N) (x : xds) (k : kind) (evs : list event) (p : proxy)
-       (pneeds decided sent equal held_ok : bool)
-(* same world, several changes merged into one push (no single kind): only the client-side observation *)
-| HBatch (id : N) (x : xds) (nt : node_type) (nops : N) (sent equal held_ok : bool)
-(* end-to-end: after nchanges changes in random batches, per xDS type: equal = what the long-lived client holds equals
-   what a FRESH control plane built from the final state serves to the same proxy; new_equal = what a NEW client gets
-   from the live control plane equals that too *)
-| Converge (id : N) (x : xds) (nt : node_type) (nchanges : N) (equal new_equal : bool)
-(* after every push: x generated (real generators, no cache, forced) from the live, partially updated PushContext
-   equals x generated from a from-scratch PushContext of the same environment (equal); and what the long-lived
-   client holds equals the latter (held_equal) *)
-| CtxEq (id : N) (x : xds) (nt : node_type) (nchanges : N) (equal held_equal : bool).
+(* ONE config change of kind k pushed alone: evs = the push request(s) the real controllers emitted for it, filtered by
+   the real DefaultProxyNeedsPush for this proxy (pneeds = its verdict) *)
+| HStep (id : N) (scoped jwks : bool) (root : N) (k : kind) (evs : list event) (p : proxy) (pneeds : bool) (os : list xo)
+(* several changes merged into one or two pushes (no single kind; decided is not recorded) *)
+| HBatch (id : N) (nt : node_type) (nops : N) (os : list xo)
+(* end-to-end, per xDS type: equal = what the long-lived client holds after nchanges changes equals what a FRESH control
+   plane built from the final state serves to the same proxy; new_equal = so does what a NEW client gets from the live one *)
+| Converge (id : N) (nt : node_type) (nchanges : N) (os : list cv).
 
 Definition case_id c := match c with NeedsPush id _ _ _ _ _ _ _ _ => id | Table id _ _ _ _ _ => id
                                   | ProxyNeeds id _ _ _ _ _ _ _ _ => id
-                                  | HDep id _ _ _ _ _ _ _ _ _ _ _ _ => id | HBatch id _ _ _ _ _ _ => id
-                                  | Converge id _ _ _ _ _ => id | CtxEq id _ _ _ _ _ => id end.
+                                  | HStep id _ _ _ _ _ _ _ _ => id | HBatch id _ _ _ => id | Converge id _ _ _ => id end.
 
 Definition subset_keys (a b : list key) := forallb (fun c => existsb (key_eqb c) b) a.
 Definition same_keys (a b : list key) := subset_keys a b && subset_keys b a.
@@ -71,12 +79,13 @@ Definition model_ok (c : case) : bool :=
   | ProxyNeeds _ sc jw root r p d okeys o =>
       let '(ks, b) := default_proxy_needs_push (mk_env sc jw root) r p d in
       same_keys ks okeys && Bool.eqb b o
-  | HDep _ sc jw root x _ evs p pneeds decided _ _ _ =>
-      if pneeds then Bool.eqb (needs_push x (mk_env sc jw root) (merge_events false false evs) p) decided
-      else negb decided
-  | HBatch _ _ _ _ _ _ _ => true
-  | Converge _ _ _ _ _ _ => true
-  | CtxEq _ _ _ _ _ _ => true
+  | HStep _ sc jw root _ evs p pneeds os =>
+      let e := mk_env sc jw root in
+      let r := merge_events false false evs in
+      forallb (fun o => match o with XO x decided _ _ _ _ _ _ =>
+                 if pneeds then Bool.eqb (needs_push x e r p) decided else negb decided end) os
+  | HBatch _ _ _ _ => true
+  | Converge _ _ _ _ => true
   end.
 
 (* property oracle: an OBSERVED skip must be justified by the declared dependencies of the generator;
@@ -98,12 +107,15 @@ Definition prop_ok (c : case) : bool :=
       else if String.eqb name "skippedLdsConfigs" then match nt with Some t => chk LDS t | None => true end
       else true
   | ProxyNeeds _ _ _ _ _ _ _ _ _ => true
-  (* "whenever the control plane decides that a change does not concern a proxy or an xDS type and skips the push,
-     the resources it did not resend are identical before and after the change" + the client is converged *)
-  | HDep _ _ _ _ _ _ _ _ _ decided sent equal held_ok => (decided || equal) && (sent || equal) && held_ok
-  | HBatch _ _ _ _ sent equal held_ok => (sent || equal) && held_ok
-  | Converge _ _ _ _ equal new_equal => equal && new_equal
-  | CtxEq _ _ _ _ equal held_equal => equal && held_equal
+  (* "whenever the control plane decides that a change does not concern a proxy or an xDS type and skips or narrows the
+     push, the resources it did not resend are identical before and after the change" + the client is converged *)
+  | HStep _ _ _ _ _ _ _ _ os =>
+      forallb (fun o => match o with XO _ decided sent equal narrow held ctx heldfull =>
+                 (decided || equal) && (sent || equal) && narrow && held && ctx && heldfull end) os
+  | HBatch _ _ _ os =>
+      forallb (fun o => match o with XO _ _ sent equal narrow held ctx heldfull =>
+                 (sent || equal) && narrow && held && ctx && heldfull end) os
+  | Converge _ _ _ os => forallb (fun o => match o with CV _ equal new_equal => equal && new_equal end) os
   end.
 
 Definition mismatches := check_all case_id model_ok prop_ok.
